@@ -65,7 +65,11 @@ class PaneBase:
     ):
         old_params = getattr(cls, '__parameters__', ())
         super().__init_subclass__(*args, **kwargs)
-        setattr(cls, '__parameters__', old_params + getattr(cls, '__parameters__', ()))
+        new_params = getattr(cls, '__parameters__', ())
+        if not all(p in new_params for p in old_params):
+            # inherited type variables not all re-declared by an explicit Generic[...]
+            new_params = old_params + tuple(p for p in new_params if p not in old_params)
+        setattr(cls, '__parameters__', new_params)
 
         if rename is not None:
             if in_rename is not None or out_rename is not None:
